@@ -23,6 +23,10 @@ func (ex *Exec) fieldAddr(s *State, fr *Frame, base Value, ptrT types.Type, fiel
 		s.dead = true
 		return nil
 	}
+	ex.nilCheckPtr(s, fr, base, at)
+	if s.dead {
+		return nil
+	}
 	return ex.fieldAddrOf(s, base, elem, field)
 }
 
@@ -390,6 +394,12 @@ func (ex *Exec) reinterpretLoad(s *State, p PtrV) Value {
 }
 
 func (ex *Exec) store(s *State, fr *Frame, addr Value, v Value, vt types.Type, pos token.Pos, at ssa.Instruction) {
+	if at != nil && fr != nil {
+		ex.nilCheckPtr(s, fr, addr, at)
+		if s.dead {
+			return
+		}
+	}
 	switch p := addr.(type) {
 	case PtrV:
 		if fr != nil && fr.top || true {
